@@ -47,3 +47,64 @@ REG.add(_delegation("access_layers_except_layers_that", {"import_": "True", "exc
 REG.add(_delegation("be_accessed_by_layers_except_layers_that", {"import_": "False", "except_present": "True", "_next": "False"}))
 REG.add(_delegation("access_any_layer", {"import_": "True", "rule_object_anything": "True", "_next": "False"}))
 REG.add(_delegation("be_accessed_by_any_layer", {"import_": "False", "rule_object_anything": "True", "_next": "False"}))
+
+# ---------------------------------------------------------------- LayerRuleViolationDetector (C05): same-layer pairs never count
+import z3
+from pyvc.vals import V, vbool
+M_LD = "pytestarch.rule_assessment.rule_check.layer_rule_violation_detector"
+M_EA2 = "pytestarch.eval_structure.evaluable_architecture"
+vals.declare_obj("LayerRuleViolationDetector", dict(_module_requirement="ModuleRequirement", _behavior_requirement="BehaviorRequirement",
+                                                    _layer_to_module_mapping="Opaque[LayerMapping]"))
+LD = "LayerRuleViolationDetector"
+# modelling device: the layer detector's record extends the module detector's (same two requirement fields), so the base-class contracts apply to it
+REG.class_bases["LayerRuleViolationDetector"] = ["RuleViolationDetector"]
+REG.add(Contract("LayerMapping.get_layer_for_module_name", module=M_EA2, kind="method", status="bounded", pure=True,
+                 params=dict(self="Opaque[LayerMapping]", module_name="Node"), returns="Opt[Str]",
+                 note="layer of the nearest listed dotted ancestor (bisect over sorted names): not under contract, covered by the bounded C05 / C14 stand-ins; "
+                      "used here as ONE uninterpreted function layer_of(mapping, name)"))
+REG.macro("layer_of", ["L", "n"], "LayerMapping.get_layer_for_module_name(L, n)")
+REG.macro("cross_layer", ["L", "x"], "layer_of(L, mid(x[0])) != layer_of(L, mid(x[1]))")
+_ld_inner = dict(sig="for dependency in violating_dependencies", invariant=[
+    "forall(Dep, lambda x: (x in violating_dependencies_in_different_layers) == ((x in seen) and cross_layer(self._layer_to_module_mapping, x)))"])
+c1 = REG.add(Contract(f"{LD}._get_realised_dependencies", module=M_LD, kind="method",
+                      params=dict(self=LD, explicitly_requested_dependencies="Dict[Dep,Bag[Dep]]"), returns="Set[Dep]",
+                      # C05: imports between modules of the same layer never count
+                      ensures=["forall(Dep, lambda x: (x in result) == (realised_rel(self._module_requirement, explicitly_requested_dependencies, x) and cross_layer(self._layer_to_module_mapping, x)))"],
+                      locals=dict(violating_dependencies="Set[Dep]", violating_dependencies_in_different_layers="Set[Dep]"),
+                      loops={0: _ld_inner}, properties=["C05"]))
+c1.alt = REG.add(Contract(f"{LD}._get_realised_dependencies@mod", module=M_LD, qualname=f"{LD}._get_realised_dependencies", kind="method",
+                          params=dict(self=LD, explicitly_requested_dependencies="Dict[Mod,Bag[Dep]]"), returns="Set[Dep]",
+                          ensures=["forall(Dep, lambda x: (x in result) == (realised_rel_m(self._module_requirement, explicitly_requested_dependencies, x) and cross_layer(self._layer_to_module_mapping, x)))"],
+                          locals=dict(violating_dependencies="Set[Dep]", violating_dependencies_in_different_layers="Set[Dep]"),
+                          loops={0: _ld_inner}, properties=["C05"]))
+REG.add(Contract(f"{LD}._append_missing_dependencies", module=M_LD, kind="method",
+                 params=dict(self=LD, not_explicitly_requested_dependencies="Dict[Mod,Bag[Dep]]"), returns="Bag[Dep]",
+                 ensures=["forall(Dep, lambda y: (y in result) == exists(Mod, Filter, lambda m, o: (m in not_explicitly_requested_dependencies) and "
+                          "(o in self._module_requirement._importees_as_specified_by_user) and y == ((m, f2m(o)) if self._module_requirement._importer_specified_as_rule_subject else (f2m(o), m))))"],
+                 locals=dict(dependencies="Bag[Dep]"), cases=["self._module_requirement._importer_specified_as_rule_subject"],
+                 loops={
+                     0: dict(sig="for module_with_missing_dependencies in not_explicitly_requested_dependencies.keys()", invariant=[
+                         "forall(Dep, lambda y: (y in dependencies) == exists(Mod, Filter, lambda m, o: (m in seen) and (o in self._module_requirement._importees_as_specified_by_user) and "
+                         "y == ((m, f2m(o)) if self._module_requirement._importer_specified_as_rule_subject else (f2m(o), m))))"]),
+                     1: dict(sig="for other_module in self._get_importee_modules_as_specified_by_user()", invariant=[
+                         "forall(Dep, lambda y: (y in dependencies) == ((y in pre(dependencies)) or exists(Mod, lambda om: (om in seen) and y == (module_with_missing_dependencies, om))))"]),
+                     2: dict(sig="for other_module in self._get_importee_modules_as_specified_by_user()", invariant=[
+                         "forall(Dep, lambda y: (y in dependencies) == ((y in pre(dependencies)) or exists(Mod, lambda om: (om in seen) and y == (om, module_with_missing_dependencies))))"]),
+                 }, properties=["C05"]))
+REG.add(Contract(f"{LD}._get_any_missing_dependencies_in_user_specified_order", module=M_LD, kind="method",
+                 params=dict(self=LD, not_explicitly_requested_dependencies="Dict[Mod,Bag[Dep]]"), returns="Set[Dep]",
+                 # C05: the required access to 'something else' is satisfied ONLY by an import that leaves the layer (an intra-layer import never counts)
+                 ensures=["implies(exists(Dep, lambda x: realised_rel_m(self._module_requirement, not_explicitly_requested_dependencies, x) and cross_layer(self._layer_to_module_mapping, x)), "
+                          "not nonempty(result))",
+                          "implies(not exists(Dep, lambda x: realised_rel_m(self._module_requirement, not_explicitly_requested_dependencies, x) and cross_layer(self._layer_to_module_mapping, x)), "
+                          "nonempty(result) == (exists(Mod, lambda m: m in not_explicitly_requested_dependencies) and nonempty(self._module_requirement._importees_as_specified_by_user)))"],
+                 locals=dict(dependencies="Bag[Dep]"), cases=["self._module_requirement._importer_specified_as_rule_subject"], properties=["C05"]))
+for _name, _K, _rel in (("_should_not_requirement_violations", "Dep", "realised_rel"), ("_should_only_requirement_violations_by_not_explicitly_requested_dependency", "Mod", "realised_rel_m"),
+                        ("_should_only_except_requirement_violations_due_to_explicit_dependency_present", "Dep", "realised_rel"), ("_should_not_except_requirement_violations", "Mod", "realised_rel_m")):
+    from pyvc import extract as _ex
+    _fn = _ex.module(M_LD).function(f"{LD}.{_name}")
+    _an = [a.arg for a in _fn.args.args] if _fn is not None else ["self", "flag", "deps"]
+    REG.add(Contract(f"{LD}.{_name}", module=M_LD, kind="method", params={_an[0]: LD, _an[1]: "Bool", _an[2]: f"Opt[Dict[{_K},Bag[Dep]]]"}, returns="Set[Dep]",
+                     # forbidden-import buckets: exactly the reported pairs that cross a layer boundary
+                     ensures=[f"forall(Dep, lambda x: (x in result) == ({_an[1]} and (not is_none({_an[2]})) and {_rel}(self._module_requirement, unwrap({_an[2]}), x) and cross_layer(self._layer_to_module_mapping, x)))"],
+                     properties=["C05"]))
